@@ -377,7 +377,17 @@ fn include_cases(rng: &mut Rng, index: usize, root: &Path, yr: Option<&str>, sta
     let main_path = dir.join("main.yar"); let common_path = dir.join("common.yar");
     std::fs::write(&main_path, &main_text).unwrap(); std::fs::write(&common_path, &common.src).unwrap();
     let mp = main_path.to_str().unwrap().to_string(); let cp = common_path.to_str().unwrap().to_string();
-    let c = compile_in(main_text.as_bytes(), &mp, Some(&dir));
+    let c = match catch(AssertUnwindSafe(|| compile_in(main_text.as_bytes(), &mp, Some(&dir)))) {
+        Ok(c) => c,
+        Err(msg) => {
+            // the compiler itself panicked: one failing case that carries the sources
+            stats.inc("include_cases"); stats.inc("impl_fails_include:compiler-panicked");
+            let case = format!("mkCase {} [] [] None None false false false true false", coq_bytes(main_text.as_bytes()));
+            let replay = format!("{{\"index\":{},\"kind\":\"include\",\"file\":\"main.yar\",\"main\":{},\"common\":{},\"patches\":[],\"class\":\"include:compiler-panicked\",\"panic\":{}}}",
+                index, json_str(&main_text), json_str(&common.src), json_str(&msg));
+            return vec![(case, replay)];
+        }
+    };
     let mut files = vec![
         FileObs { path: mp.clone(), text: main_text.clone().into_bytes(), patches: vec![], fixed: None, yr_after: None },
         FileObs { path: cp.clone(), text: common.src.clone().into_bytes(), patches: vec![], fixed: None, yr_after: None }];
